@@ -5,8 +5,16 @@ use serde_json::{json, Value};
 use std::panic::{catch_unwind, AssertUnwindSafe};
 use std::sync::{Arc, Mutex};
 
-pub fn extra_subcommand(_name: &str, _args: &[String]) -> Option<i32> {
-    None
+pub fn extra_subcommand(name: &str, _args: &[String]) -> Option<i32> {
+    match name {
+        "builder-methods" => {
+            use crate::builder_ops::*;
+            println!("{}", json!({"bool": BOOL_METHODS, "noarg": NOARG_METHODS, "str": STR_METHODS,
+                                  "parsed": PARSED_METHODS, "special": SPECIAL_METHODS}));
+            Some(0)
+        }
+        _ => None,
+    }
 }
 
 fn strs(v: Option<&Value>) -> Vec<String> {
@@ -161,6 +169,84 @@ pub fn run_job(job: &Value) -> Value {
                 Err(e) => json!({"status":"err","err":e}),
             }
         }
-        other => json!({"status":"badjob","err":format!("unknown mode {other}")}),
+        other => run_job_ext(other, job).unwrap_or_else(|| json!({"status":"badjob","err":format!("unknown mode {other}")})),
     }
+}
+
+// ---------------------------------------------------------------- C13 round trips
+
+fn build_from_ops(ops: &[Value]) -> Result<bindgen::Builder, String> {
+    let mut b = bindgen::builder();
+    for op in ops {
+        let arr = op.as_array().ok_or("op must be an array")?;
+        let name = arr[0].as_str().ok_or("op name")?;
+        b = crate::builder_ops::apply_op(b, name, &arr[1..])?;
+    }
+    Ok(b)
+}
+
+fn gen_text(b: bindgen::Builder) -> Value {
+    match catch_unwind(AssertUnwindSafe(|| b.generate())) {
+        Ok(Ok(bindings)) => {
+            let mut buf = vec![];
+            match bindings.write(&mut buf) {
+                Ok(()) => json!({"status":"ok","text":String::from_utf8_lossy(&buf)}),
+                Err(e) => json!({"status":"write_err","err":e.to_string()}),
+            }
+        }
+        Ok(Err(e)) => json!({"status":"err","err_kind":err_kind(&e),"err":e.to_string()}),
+        Err(_) => json!({"status":"panic","panic":take_panic()}),
+    }
+}
+
+/// ops -> builder b1; flags1 = b1.command_line_flags(); b2 = builder_from_flags(flags1);
+/// flags2 = b2.command_line_flags(); both generate.
+fn roundtrip_job(job: &Value) -> Value {
+    let ops = job.get("ops").and_then(|o| o.as_array()).cloned().unwrap_or_default();
+    let generate = job.get("generate").and_then(|g| g.as_bool()).unwrap_or(true);
+    let b1 = match build_from_ops(&ops) {
+        Ok(b) => b,
+        Err(e) => return json!({"status":"badjob","err":e}),
+    };
+    let flags1 = b1.command_line_flags();
+    let mut argv = vec!["bindgen".to_string()];
+    argv.extend(flags1.iter().cloned());
+    // NB: builder_from_flags exits the process on a clap error: the pool reports that as a crash.
+    let b2 = match bindgen::builder_from_flags(argv.into_iter()) {
+        Ok((b, _, _)) => b,
+        Err(e) => return json!({"status":"reparse_err","flags1":flags1,"err":e.to_string()}),
+    };
+    let flags2 = b2.command_line_flags();
+    let mut out = json!({"status":"ok","flags1":flags1,"flags2":flags2});
+    if generate {
+        out["out1"] = gen_text(b1);
+        out["out2"] = gen_text(b2);
+    }
+    out
+}
+
+/// builder_from_flags(flags) vs builder built by ops: flag lists and generated text.
+fn flagcmp_job(job: &Value) -> Value {
+    let ops = job.get("ops").and_then(|o| o.as_array()).cloned().unwrap_or_default();
+    let mut argv = vec!["bindgen".to_string()];
+    argv.extend(strs(job.get("flags")));
+    let bm = match build_from_ops(&ops) {
+        Ok(b) => b,
+        Err(e) => return json!({"status":"badjob","err":e}),
+    };
+    let bf = match bindgen::builder_from_flags(argv.into_iter()) {
+        Ok((b, _, _)) => b,
+        Err(e) => return json!({"status":"flags_err","err":e.to_string()}),
+    };
+    let ff = bf.command_line_flags();
+    let fm = bm.command_line_flags();
+    json!({"status":"ok","flags_from_flags":ff,"flags_from_methods":fm,"out_flags":gen_text(bf),"out_methods":gen_text(bm)})
+}
+
+pub fn run_job_ext(mode: &str, job: &Value) -> Option<Value> {
+    Some(match mode {
+        "roundtrip" => roundtrip_job(job),
+        "flagcmp" => flagcmp_job(job),
+        _ => return None,
+    })
 }
